@@ -275,7 +275,7 @@ func (r *rewriter) fixUnusedImports() {
 	})
 	for _, imp := range r.file.Imports {
 		path := strings.Trim(imp.Path.Value, `"`)
-		if path != "os" && path != "sync/atomic" && path != "time" && path != "sync" && path != "io/ioutil" {
+		if path != "os" && path != "sync/atomic" && path != "time" && path != "sync" && path != "io/ioutil" && path != "runtime" {
 			continue
 		}
 		name := filepath.Base(path)
@@ -358,6 +358,12 @@ func (r *rewriter) rewriteCall(c *astutil.Cursor, n *ast.CallExpr) {
 		case p == "sync/atomic" && !*noAtom && len(n.Args) >= 1:
 			n.Args[0] = call(rt("YP"), newSite(r.fset, n.Pos(), "atomic"), n.Args[0])
 			r.changed, r.useRT = true, true
+		case p == "runtime" && (name == "GOMAXPROCS" || name == "NumCPU"):
+			// a tuning knob that would make schedules depend on the machine
+			if name == "NumCPU" || (len(n.Args) == 1 && r.isConst(n.Args[0])) {
+				c.Replace(call(rt("Procs")))
+				r.changed, r.useRT = true, true
+			}
 		case p == "time" && name == "Sleep":
 			c.Replace(call(rt("Sleep"), n.Args[0], newSite(r.fset, n.Pos(), "sleep")))
 			r.changed, r.useRT = true, true
